@@ -2,8 +2,9 @@
 C04 — executable model of the marker module's bank send restriction.
 
 Mirrors, function by function (Go names kept):
-  x/marker/keeper/send_restrictions.go   SendRestrictionFn (18-95), validateSendDenom (99-189),
-                                         findMissingAttributes (193-205), MatchAttribute (232-241)
+  x/marker/keeper/send_restrictions.go   SendRestrictionFn (18-93), validateSendDenom (97-185),
+                                         findMissingAttributes (189-201), MatchAttribute (228-237)
+                                         (line numbers at ed45788f3)
   x/marker/types/marker.go               HasAccess (135-142), AtLeastOneAddrHasAccess (164-171),
                                          ValidateAtLeastOneAddrHasAccess (174-186)
   x/marker/types/accessgrant.go          AccessGrant.HasAccess (117-122)
@@ -79,19 +80,19 @@ structure Cfg where
 
 /-- Which check refused (one constructor per `return …err` of the Go code). -/
 inductive Reason
-  | fcBypass          -- :32  restricted denom to the fee collector on the bypass path
-  | notMarker         -- :29 / :103 GetMarker error: the denom's marker address holds a non-marker account
-  | withdrawNoAgent   -- :51
-  | withdraw          -- :57
-  | fromStatus        -- :66
-  | depositAgent      -- :78
-  | depositSender     -- :82
-  | status            -- :108
-  | fc                -- :118
-  | denyList          -- :131
-  | transferToMarker  -- :145 / :153
-  | transfer          -- :165
-  | attrs             -- :185
+  | fcBypass          -- :30  restricted denom to the fee collector on the bypass path
+  | notMarker         -- (only before ed45788f3) GetMarker error: the denom's marker address holds a non-marker account
+  | withdrawNoAgent   -- :49
+  | withdraw          -- :55
+  | fromStatus        -- :64
+  | depositAgent      -- :76
+  | depositSender     -- :80
+  | status            -- :104
+  | fc                -- :114
+  | denyList          -- :127
+  | transferToMarker  -- :141 / :149
+  | transfer          -- :161
+  | attrs             -- :181
   deriving DecidableEq, Repr
 
 /-- `(toAddr, nil)` is `allow`; `(nil, err)` is `deny`. -/
@@ -187,35 +188,38 @@ def forCoins (f : Denom → Decision) : Coins → Decision
     | .ok _ => forCoins f rest
     | .error e => .error e
 
-/-- The loop body at send_restrictions.go:25-34 (bypass path, receiver is the fee collector). -/
+/-- The loop body at send_restrictions.go:25-33 (bypass path, receiver is the fee collector).
+`marker, _ := k.GetMarker(...)`: since ed45788f3 a non-marker account at the denom's marker address
+counts as "no marker". -/
 def bypassFeeCollectorDenom (cfg : Cfg) (denom : Denom) : Decision :=
-  match getMarker cfg (cfg.markerAddr denom) with
-  | .error _ => deny .notMarker
-  | .ok marker =>
-    match marker with
-    | some m => if m.mtype = .restricted then deny .fcBypass else allow
-    | none => allow
+  match getMarkerIgnoreErr cfg (cfg.markerAddr denom) with
+  | some m => if m.mtype = .restricted then deny .fcBypass else allow
+  | none => allow
 
-/-- `validateSendDenom` (send_restrictions.go:99-189). -/
+/-- `validateSendDenom` from "If there's a marker, it must be active" on (send_restrictions.go:103-185),
+for the marker found for the denom. -/
+def validateSendDenomMarker (cfg : Cfg) (toMarker : Option Marker) (marker : Marker) : Decision :=
+  if marker.status ≠ .active then deny .status                 -- :103-104
+  else if marker.mtype ≠ .restricted then allow                -- :108
+  else if cfg.toAddr = cfg.feeCollectorAddr then deny .fc      -- :113-114
+  else if cfg.agents.length > 0 && atLeastOneAddrHasAccess marker cfg.agents .transfer then allow  -- :118
+  else if isSendDeny marker cfg.fromAddr then deny .denyList   -- :126-127
+  else if marker.hasAccess cfg.fromAddr .transfer then allow   -- :131
+  else if toMarker.isSome then deny .transferToMarker          -- :139-150
+  else if marker.reqAttrs.length = 0 then                      -- :157
+    if isReqAttrBypassAddr cfg cfg.fromAddr then allow else deny .transfer
+  else if isReqAttrBypassAddr cfg cfg.toAddr then allow        -- :167
+  else if (findMissingAttributes marker.reqAttrs (cfg.attrs cfg.toAddr)).length ≠ 0 then deny .attrs
+  else allow
+
+/-- `validateSendDenom` (send_restrictions.go:97-185).  `marker, _ := k.GetMarker(...)`: since
+ed45788f3 a non-marker account at the denom's marker address counts as "no marker". -/
 def validateSendDenom (cfg : Cfg) (toMarker : Option Marker) (denom : Denom) : Decision :=
-  match getMarker cfg (cfg.markerAddr denom) with
-  | .error _ => deny .notMarker
-  | .ok none => allow                                          -- :112 no marker
-  | .ok (some marker) =>
-    if marker.status ≠ .active then deny .status               -- :107
-    else if marker.mtype ≠ .restricted then allow              -- :112
-    else if cfg.toAddr = cfg.feeCollectorAddr then deny .fc    -- :117
-    else if cfg.agents.length > 0 && atLeastOneAddrHasAccess marker cfg.agents .transfer then allow  -- :122
-    else if isSendDeny marker cfg.fromAddr then deny .denyList -- :130
-    else if marker.hasAccess cfg.fromAddr .transfer then allow -- :135
-    else if toMarker.isSome then deny .transferToMarker        -- :143
-    else if marker.reqAttrs.length = 0 then                    -- :161
-      if isReqAttrBypassAddr cfg cfg.fromAddr then allow else deny .transfer
-    else if isReqAttrBypassAddr cfg cfg.toAddr then allow      -- :171
-    else if (findMissingAttributes marker.reqAttrs (cfg.attrs cfg.toAddr)).length ≠ 0 then deny .attrs
-    else allow
+  match getMarkerIgnoreErr cfg (cfg.markerAddr denom) with
+  | none => allow                                              -- :108 no marker
+  | some marker => validateSendDenomMarker cfg toMarker marker
 
-/-- send_restrictions.go:49-59: without a fee grant in use some transfer agent needs withdraw access. -/
+/-- send_restrictions.go:47-57: without a fee grant in use some transfer agent needs withdraw access. -/
 def checkWithdraw (cfg : Cfg) (fromMarker : Marker) : Decision :=
   if !cfg.feeGrant then
     if cfg.agents.length = 0 then deny .withdrawNoAgent
@@ -223,7 +227,7 @@ def checkWithdraw (cfg : Cfg) (fromMarker : Marker) : Decision :=
     else deny .withdraw
   else allow
 
-/-- send_restrictions.go:63-69: a marker that is not active keeps the coins of its own denom. -/
+/-- send_restrictions.go:61-67: a marker that is not active keeps the coins of its own denom. -/
 def checkOwnDenom (fromMarker : Marker) (amt : Coins) : Decision :=
   if fromMarker.status ≠ .active then
     match find amt fromMarker.denom with
@@ -231,7 +235,7 @@ def checkOwnDenom (fromMarker : Marker) (amt : Coins) : Decision :=
     | none => allow
   else allow
 
-/-- send_restrictions.go:41-70: the sender-is-a-marker block. -/
+/-- send_restrictions.go:39-68: the sender-is-a-marker block. -/
 def checkFromMarker (cfg : Cfg) (amt : Coins) : Decision :=
   match getMarkerIgnoreErr cfg cfg.fromAddr with
   | none => allow
@@ -240,7 +244,7 @@ def checkFromMarker (cfg : Cfg) (amt : Coins) : Decision :=
     | .error e => .error e
     | .ok _ => checkOwnDenom fromMarker amt
 
-/-- send_restrictions.go:74-85: the receiver-is-a-restricted-marker block. -/
+/-- send_restrictions.go:72-83: the receiver-is-a-restricted-marker block. -/
 def checkToMarker (cfg : Cfg) (toMarker : Option Marker) : Decision :=
   match toMarker with
   | some tm =>
@@ -256,7 +260,7 @@ def checkToMarker (cfg : Cfg) (toMarker : Option Marker) : Decision :=
 def onBypassPath (cfg : Cfg) : Bool :=
   cfg.bypass || cfg.fromAddr == cfg.markerModuleAddr || cfg.fromAddr == cfg.ibcTransferModuleAddr
 
-/-- `Keeper.SendRestrictionFn` (send_restrictions.go:18-95). -/
+/-- `Keeper.SendRestrictionFn` (send_restrictions.go:18-93). -/
 def sendRestrictionFn (cfg : Cfg) (amt : Coins) : Decision :=
   if onBypassPath cfg then
     if cfg.toAddr = cfg.feeCollectorAddr then forCoins (bypassFeeCollectorDenom cfg) amt
@@ -272,5 +276,39 @@ def sendRestrictionFn (cfg : Cfg) (amt : Coins) : Decision :=
 
 /-- The decision procedure of the design (`decide : Cfg → Coins → Decision`). -/
 def decide (cfg : Cfg) (amt : Coins) : Decision := sendRestrictionFn cfg amt
+
+/-! ### The code before ed45788f3 (kept only for the historical witness)
+
+Both denom lookups returned `GetMarker`'s error ("account at … is not a marker account") instead
+of treating a non-marker account at the denom's marker address as "no marker". -/
+
+def bypassFeeCollectorDenomPreFix (cfg : Cfg) (denom : Denom) : Decision :=
+  match getMarker cfg (cfg.markerAddr denom) with
+  | .error _ => deny .notMarker
+  | .ok marker =>
+    match marker with
+    | some m => if m.mtype = .restricted then deny .fcBypass else allow
+    | none => allow
+
+def validateSendDenomPreFix (cfg : Cfg) (toMarker : Option Marker) (denom : Denom) : Decision :=
+  match getMarker cfg (cfg.markerAddr denom) with
+  | .error _ => deny .notMarker
+  | .ok none => allow
+  | .ok (some marker) => validateSendDenomMarker cfg toMarker marker
+
+def sendRestrictionFnPreFix (cfg : Cfg) (amt : Coins) : Decision :=
+  if onBypassPath cfg then
+    if cfg.toAddr = cfg.feeCollectorAddr then forCoins (bypassFeeCollectorDenomPreFix cfg) amt
+    else allow
+  else
+    match checkFromMarker cfg amt with
+    | .error e => .error e
+    | .ok _ =>
+      let toMarker := getMarkerIgnoreErr cfg cfg.toAddr
+      match checkToMarker cfg toMarker with
+      | .error e => .error e
+      | .ok _ => forCoins (validateSendDenomPreFix cfg toMarker) amt
+
+def decidePreFix (cfg : Cfg) (amt : Coins) : Decision := sendRestrictionFnPreFix cfg amt
 
 end PvModel.MkrSend
